@@ -144,6 +144,10 @@ def check_message(side, r, got):
 				want = tuple(parse_qsl(q.decode('ascii'), keep_blank_values=True, encoding='utf-8', errors='strict'))
 				if tuple(req.uri.query) != want:
 					bad.append('query pairs %r != %r' % (tuple(req.uri.query), want))
+		elif r.form == 'asterisk' and req.uri.path != u'*':
+			bad.append('asterisk-form target delivered with the path %r' % req.uri.path)
+		elif r.form == 'authority' and req.uri.path not in (u'',):
+			bad.append('authority-form target delivered with the path %r' % req.uri.path)
 		msg = req
 	else:
 		bad = []
